@@ -160,9 +160,67 @@ func smtEq(a, b string) string {
 	}
 	return "(= " + a + " " + b + ")"
 }
+// ctorFields maps a datatype constructor to its accessors in order (filled when datatypes are declared).
+var ctorFields = map[string][]string{"mkSlice": {"sarr", "soff", "slen", "scap"}, "mkObj": {"otag", "oref", "ostr"}}
+var accessorOf = map[string][2]string{"sarr": {"mkSlice", "0"}, "soff": {"mkSlice", "1"}, "slen": {"mkSlice", "2"}, "scap": {"mkSlice", "3"}, "otag": {"mkObj", "0"}, "oref": {"mkObj", "1"}, "ostr": {"mkObj", "2"}}
+
+// topArgs splits the arguments of an application "(f a b c)".
+func topArgs(s string) (string, []string) {
+	if len(s) < 2 || s[0] != '(' {
+		return "", nil
+	}
+	body := s[1 : len(s)-1]
+	var parts []string
+	depth := 0
+	cur := ""
+	for i := 0; i < len(body); i++ {
+		c := body[i]
+		switch {
+		case c == '(':
+			depth++
+			cur += string(c)
+		case c == ')':
+			depth--
+			cur += string(c)
+		case c == ' ' && depth == 0:
+			if cur != "" {
+				parts = append(parts, cur)
+				cur = ""
+			}
+		default:
+			cur += string(c)
+		}
+	}
+	if cur != "" {
+		parts = append(parts, cur)
+	}
+	if len(parts) == 0 {
+		return "", nil
+	}
+	return parts[0], parts[1:]
+}
+
 func app(f string, args ...string) string {
 	if len(args) == 0 {
 		return f
+	}
+	// accessor applied to a constructor term: project
+	if len(args) == 1 {
+		if ac, ok := accessorOf[f]; ok && strings.HasPrefix(args[0], "("+ac[0]+" ") {
+			if _, as := topArgs(args[0]); as != nil {
+				var k int
+				fmt.Sscanf(ac[1], "%d", &k)
+				if k < len(as) {
+					return as[k]
+				}
+			}
+		}
+	}
+	// select over store at the syntactically same index
+	if f == "select" && len(args) == 2 && strings.HasPrefix(args[0], "(store ") {
+		if _, as := topArgs(args[0]); len(as) == 3 && as[1] == args[1] {
+			return as[2]
+		}
 	}
 	return "(" + f + " " + strings.Join(args, " ") + ")"
 }
